@@ -100,8 +100,9 @@ PATT_BROKEN_STRING = re.compile(r"""
             | \\[a-tvwyzA-TVWYZ!-\/:-@\[-`{-~] # escaped chars
             | \\x[0-9a-fA-F]{2}        # hex_escape_sequence
             | \\u[0-9a-fA-F]{4}        # unicode_escape_sequence
-            | \\(?:[1-7][0-7]{0,2}|[0-7]{2,3})  # octal_escape_sequence
-            | \\0                      # <NUL> (15.10.2.11)
+            | \\[0-7]                  # octal_escape_sequence, <NUL>; one
+                                        # digit, as more digits are matched
+                                        # above: no two ways to match them
         )*                             # and capture them greedily
     )                                  # omit closing quote
     |
@@ -112,8 +113,9 @@ PATT_BROKEN_STRING = re.compile(r"""
             | \\[a-tvwyzA-TVWYZ!-\/:-@\[-`{-~] # escaped chars
             | \\x[0-9a-fA-F]{2}        # hex_escape_sequence
             | \\u[0-9a-fA-F]{4}        # unicode_escape_sequence
-            | \\(?:[1-7][0-7]{0,2}|[0-7]{2,3}) # octal_escape_sequence
-            | \\0                      # <NUL> (15.10.2.11)
+            | \\[0-7]                  # octal_escape_sequence, <NUL>; one
+                                        # digit, as more digits are matched
+                                        # above: no two ways to match them
         )*                             # and capture them greedily
     )                                  # omit closing quote
 )
@@ -689,8 +691,9 @@ class Lexer(object):
                 | \\[a-tvwyzA-TVWYZ!-\/:-@\[-`{-~] # escaped chars
                 | \\x[0-9a-fA-F]{2}        # hex_escape_sequence
                 | \\u[0-9a-fA-F]{4}        # unicode_escape_sequence
-                | \\(?:[1-7][0-7]{0,2}|[0-7]{2,3})  # octal_escape_sequence
-                | \\0                      # <NUL> (15.10.2.11)
+                | \\[0-7]                  # octal_escape_sequence, <NUL>; one
+                                            # digit, as more digits are matched
+                                            # above: no two ways to match them
             )*?                            # zero or many times
         ")                                 # must have closing double quote
         |
@@ -701,8 +704,9 @@ class Lexer(object):
                 | \\[a-tvwyzA-TVWYZ!-\/:-@\[-`{-~] # escaped chars
                 | \\x[0-9a-fA-F]{2}        # hex_escape_sequence
                 | \\u[0-9a-fA-F]{4}        # unicode_escape_sequence
-                | \\(?:[1-7][0-7]{0,2}|[0-7]{2,3}) # octal_escape_sequence
-                | \\0                      # <NUL> (15.10.2.11)
+                | \\[0-7]                  # octal_escape_sequence, <NUL>; one
+                                            # digit, as more digits are matched
+                                            # above: no two ways to match them
             )*?                            # zero or many times
         ')                                 # must have closing single quote
     )
